@@ -205,51 +205,74 @@ pub struct World<'e, 'd> {
     arena: Vec<Box<[u8]>>,
 }
 
-#[derive(Default)]
+/// Outline sink: canonical text of the commands. Only the first 64 KiB are kept verbatim, the
+/// rest is folded into a running hash, so that an outline of millions of commands costs the
+/// harness no memory and shows up as steps / CPU of the operation that emitted it.
 struct Sink {
     out: String,
     n: usize,
+    tail: crate::rng::Fnv,
+    folded: bool,
+    scratch: String,
+}
+
+impl Default for Sink {
+    fn default() -> Sink {
+        Sink {
+            out: String::new(),
+            n: 0,
+            tail: crate::rng::Fnv::new(),
+            folded: false,
+            scratch: String::new(),
+        }
+    }
 }
 
 impl Sink {
-    fn v(&mut self, p: Vector2F) {
+    fn cmd(&mut self, c: char, pts: &[Vector2F]) {
         use std::fmt::Write;
-        let _ = write!(self.out, "{:08x},{:08x};", p.x().to_bits(), p.y().to_bits());
+        crate::util::tick();
+        self.n += 1;
+        if self.out.len() < 65536 {
+            self.out.push(c);
+            for p in pts {
+                let _ = write!(self.out, "{:08x},{:08x};", p.x().to_bits(), p.y().to_bits());
+            }
+        } else {
+            self.folded = true;
+            self.scratch.clear();
+            self.scratch.push(c);
+            for p in pts {
+                let _ = write!(self.scratch, "{:08x},{:08x};", p.x().to_bits(), p.y().to_bits());
+            }
+            self.tail.write(self.scratch.as_bytes());
+        }
+    }
+
+    fn text(&self) -> String {
+        if self.folded {
+            format!("{}+fnv={:016x}", self.out, self.tail.finish())
+        } else {
+            self.out.clone()
+        }
     }
 }
 
 impl OutlineSink for Sink {
     fn move_to(&mut self, to: Vector2F) {
-        crate::util::tick();
-        self.n += 1;
-        self.out.push('M');
-        self.v(to);
+        self.cmd('M', &[to]);
     }
     fn line_to(&mut self, to: Vector2F) {
-        crate::util::tick();
-        self.n += 1;
-        self.out.push('L');
-        self.v(to);
+        self.cmd('L', &[to]);
     }
     fn quadratic_curve_to(&mut self, ctrl: Vector2F, to: Vector2F) {
-        crate::util::tick();
-        self.n += 1;
-        self.out.push('Q');
-        self.v(ctrl);
-        self.v(to);
+        self.cmd('Q', &[ctrl, to]);
     }
     fn cubic_curve_to(&mut self, ctrl: LineSegment2F, to: Vector2F) {
-        crate::util::tick();
-        self.n += 1;
-        self.out.push('C');
-        self.v(ctrl.from());
-        self.v(ctrl.to());
-        self.v(to);
+        self.cmd('C', &[ctrl.from(), ctrl.to(), to]);
     }
     fn close(&mut self) {
-        crate::util::tick();
-        self.n += 1;
-        self.out.push('Z');
+        self.cmd('Z', &[]);
     }
 }
 
@@ -843,7 +866,7 @@ impl<'e, 'd> World<'e, 'd> {
                     Outl::Unavailable(e) => Err(format!("unavailable:{}", e)),
                 };
                 match res {
-                    Ok(()) => OpOut::ok(format!("n={} {}", sink.n, sink.out)),
+                    Ok(()) => OpOut::ok(format!("n={} {}", sink.n, sink.text())),
                     // A failed visit may already have emitted commands; only the error is
                     // part of the canonical result.
                     Err(e) => OpOut::errs("visit", e),
